@@ -74,11 +74,29 @@ MUTANTS = [
         "                if random_identifier not in DiameterRequest.end_to_end_identifiers:\n",
         "                if True:\n")]),
     ("c16_reset_on_switch", ["C16"], None, [("bromelia/_internal_utils.py",
-        "            SessionHandler.init = SessionHandler._now()\n            SessionHandler.id += 1\n            return\n",
+        "            SessionHandler.init = max(SessionHandler.init, SessionHandler._now())\n            SessionHandler._next()\n            return\n",
         "            SessionHandler.reset()\n            return\n")]),
     ("c16_no_increment_on_switch", ["C16"], None, [("bromelia/_internal_utils.py",
-        "            SessionHandler.init = SessionHandler._now()\n            SessionHandler.id += 1\n            return\n",
-        "            SessionHandler.init = SessionHandler._now()\n            return\n")]),
+        "            SessionHandler.init = max(SessionHandler.init, SessionHandler._now())\n            SessionHandler._next()\n            return\n",
+        "            SessionHandler.init = max(SessionHandler.init, SessionHandler._now())\n            return\n")]),
+    ("c16_high_follows_clock", ["C16"], None, [("bromelia/_internal_utils.py",
+        "            SessionHandler.init = max(SessionHandler.init, SessionHandler._now())\n",
+        "            SessionHandler.init = SessionHandler._now()\n")]),
+    ("c08_election_states_trap", ["C03"], "300", [("bromelia/statemachine.py",
+        "        self.set_wait_returns_state(set_name=True)\n\n        #: The election itself is not implemented, but the connection must\n        #: not be trapped in here once the peer is gone or a stop is requested.\n        if (self.is_set_release_signal_from_peer() or \n                self.is_set_stop_request_from_local()):\n            self.set_closed_state()\n",
+        "        self.set_wait_returns_state(set_name=True)\n")]),
+    ("c08_close_lost_across_open", ["C08"], "400", [("bromelia/statemachine.py",
+        "        return (not self.association.state_is_active or \n                self.association.stop_requested)\n",
+        "        return not self.association.state_is_active\n")]),
+    ("c08_closing_does_not_flush", ["C08"], None, [("bromelia/statemachine.py",
+        "        if self.has_send_queue_message():\n            self.send_message()\n\n        if self.has_recv_queue_message():\n            self.msg = self.get_message()\n\n            self.make_default_logging()\n\n            if has_recv_dpa(self.msg):",
+        "        if self.has_recv_queue_message():\n            self.msg = self.get_message()\n\n            self.make_default_logging()\n\n            if has_recv_dpa(self.msg):")]),
+    ("c06_count_only_validation", ["C06"], None, [("bromelia/process.py",
+        "        if (self.checklist_mandatory_avps == 5 and len(self.mandatory_avps_found) == 5) and",
+        "        if (self.checklist_mandatory_avps == 5) and")]),
+    ("c03_uri_strict_decode", ["C03"], None, [("bromelia/types.py",
+        "            try:\n                data = data.decode(\"utf-8\")\n\n            except UnicodeDecodeError:\n                raise DataTypeError(\"invalid data format. It does not \"\\\n                                    \"comply to the DiameterURI syntax\")\n",
+        "            data = data.decode(\"utf-8\")\n")]),
 ]
 
 
